@@ -87,12 +87,31 @@ front is `any_weak`. -/
 def checkGCDKey (n g : Nat) : Bool × List Nat :=
   if g = 1 then (false, []) else (true, [g, n / g])
 
+/-- the search for a proper factor when the batch gcd equals the modulus (`fix:` D2):
+`for other in vals: h = gcd(n, other); if 1 < h < n: …; break`. -/
+def properFromOthers (n : Nat) : List Nat → Option Nat
+  | [] => none
+  | m :: rest =>
+    if 1 < Nat.gcd n m ∧ Nat.gcd n m < n then some (Nat.gcd n m) else properFromOthers n rest
+
+/-- the extra pair recorded when the batch gcd is the modulus itself (`fix:` D2). -/
+def extraSplit (ns : List Nat) (n g : Nat) : List Nat :=
+  if g = n then
+    match properFromOthers n ns with
+    | some h => [h, n / h]
+    | none => []
+  else []
+
+/-- body of the loop of `CheckGCD.Check` for one key after the D2 repair. -/
+def checkGCDKeyR (ns : List Nat) (n g : Nat) : Bool × List Nat :=
+  if g = 1 then (false, []) else (true, [g, n / g] ++ extraSplit ns n g)
+
 /-- `CheckGCD.Check` on the moduli `ns` (in artifact order); `bg` is the `BatchGCD` in use
 (repaired or pinned). -/
 def checkGCDV (bg : List Nat → Option Nat → Except PyErr (List Nat)) (ns : List Nat) :
     Except PyErr (Bool × List (Bool × List Nat)) := do
   let gcds ← bg ns none
-  let per := List.zipWith checkGCDKey ns gcds
+  let per := List.zipWith (checkGCDKeyR ns) ns gcds
   pure (per.any (·.1), per)
 
 def checkGCD (ns : List Nat) := checkGCDV batchGCD ns
